@@ -1,6 +1,7 @@
 SPECIFICATION Spec
 CONSTANTS
   Scen1 <- ScenRC
+  ScenBusy <- NoBusy
   Scen2 <- JustNo
   ClearChoices = {FALSE}
   Installs = {TRUE}
